@@ -1,6 +1,7 @@
 from __future__ import annotations
 
 import importlib
+import importlib.machinery
 import importlib.util
 import logging
 import os
@@ -355,7 +356,9 @@ class Config:
             filename: The filename which gives the path to the file.
         """
         file_path = os.fspath(filename)
-        spec = importlib.util.spec_from_file_location("module.name", file_path)
+        # Given a loader the file need not be named *.py
+        loader = importlib.machinery.SourceFileLoader("module.name", file_path)
+        spec = importlib.util.spec_from_file_location("module.name", file_path, loader=loader)
         module = importlib.util.module_from_spec(spec)
         spec.loader.exec_module(module)
         return cls.from_object(module)
